@@ -605,7 +605,7 @@ func (g *gen) step() bool {
 func main() {
 	run := lib.ParseArgs()
 	elaenv.InitLog(run.Out)
-	rng := lib.NewRng(run.Seed)
+	rng := lib.NewRng(run.Seed).Fork() // Fork: the raw streams of neighbouring seeds are shifted copies of each other
 	st := lib.NewStats("C20", "op traces over utils.History with closures on an int64 vector (assign with captured old value / add / swap; non-commuting pairs common): blocks of 0-4 changes per height, temporary changes, capacities 0-6 with overflow, rollbacks within capacity, seek back and forth, RollbackSeekTo; separate streams with height gaps, with ops from the known defect classes and with usage errors (panics). nontrivial = trace with a rollback or seek below the best height that changed the vector; distinct by the op list")
 	sh := &lib.Shards{Dir: run.Out, Imports: "From ELA Require Import corr.C20_corr.", CaseType: "C20_corr.case",
 		Mismatch: "C20_corr.mismatches", Scope: "Z", PerShard: 40}
